@@ -188,7 +188,7 @@ struct Emitter {
     for (unsigned i = 0; i < FT->getNumParams(); ++i) { if (i) args += ", "; args += normTy(FT->getParamType(i)); }
     if (FT->isVarArg()) args += (FT->getNumParams() ? ", ..." : "");
     if (args.empty() && !FT->isVarArg()) args = "void";
-    static const std::set<std::string> libc = {"memcmp","strlen","strcmp","strncmp","memchr","strchr","strrchr","strstr","abs","labs","malloc","free","calloc","realloc","fmod","pow","floor","ceil","sqrt","fabs","exit","abort"};
+    static const std::set<std::string> libc = {"memcmp","strlen","strcmp","strncmp","memchr","strchr","strrchr","strstr","abs","labs","malloc","free","calloc","realloc","fmod","pow","floor","ceil","sqrt","fabs","exit","abort","strtoll","strtoull","strtol","strtoul","strtod"};
     if (libc.count(F->getName().str())) return;
     extProtos << normTy(FT->getReturnType()) << " " << n << "(" << args << ");\n";
     if (!modelFns.count(F->getName().str())) {
@@ -591,8 +591,9 @@ struct Emitter {
           unsigned w = T->getIntegerBitWidth();
           std::string x = V(I.getOperand(0));
           if (optUB) {
-            // representable iff  -2^(w-1) - 1 < x < 2^(w-1)
-            body << "  __CPROVER_assert(!__CPROVER_isnan(" << x << ") && (double)" << x << " > -" << std::to_string(std::ldexp(1.0, w - 1)) << " - 1.0 && (double)" << x << " < " << std::to_string(std::ldexp(1.0, w - 1))
+            // representable iff  -2^(w-1) - 1 < x < 2^(w-1); for w > 53 the bound -2^(w-1) - 1 is not a double, use x >= -2^(w-1)
+            std::string lo = w > 53 ? ("(double)" + x + " >= -" + std::to_string(std::ldexp(1.0, w - 1))) : ("(double)" + x + " > -" + std::to_string(std::ldexp(1.0, w - 1)) + " - 1.0");
+            body << "  __CPROVER_assert(!__CPROVER_isnand((double)" << x << ") && " << lo << " && (double)" << x << " < " << std::to_string(std::ldexp(1.0, w - 1))
                  << ", \"UB: fptosi out of range\");\n";
           }
           body << "  " << L << " = " << maskTo("(" + sTy(cWidth(w)) + ")" + x, T) << ";\n"; break;
@@ -600,7 +601,7 @@ struct Emitter {
         case Instruction::FPToUI: {
           unsigned w = T->getIntegerBitWidth();
           std::string x = V(I.getOperand(0));
-          if (optUB) body << "  __CPROVER_assert(!__CPROVER_isnan(" << x << ") && (double)" << x << " > -1.0 && (double)" << x << " < " << std::to_string(std::ldexp(1.0, w)) << ", \"UB: fptoui out of range\");\n";
+          if (optUB) body << "  __CPROVER_assert(!__CPROVER_isnand((double)" << x << ") && (double)" << x << " > -1.0 && (double)" << x << " < " << std::to_string(std::ldexp(1.0, w)) << ", \"UB: fptoui out of range\");\n";
           body << "  " << L << " = " << maskTo("(" + cty(T) + ")" + x, T) << ";\n"; break;
         }
         case Instruction::Add: case Instruction::Sub: case Instruction::Mul: {
@@ -672,7 +673,7 @@ struct Emitter {
         case Instruction::FCmp: {
           auto& C = cast<FCmpInst>(I);
           std::string a = V(C.getOperand(0)), b = V(C.getOperand(1));
-          std::string un = "(__CPROVER_isnan(" + a + ") || __CPROVER_isnan(" + b + "))";
+          std::string un = "(__CPROVER_isnand((double)" + a + ") || __CPROVER_isnand((double)" + b + "))";
           std::string e;
           switch (C.getPredicate()) {
           case CmpInst::FCMP_FALSE: e = "0"; break; case CmpInst::FCMP_TRUE: e = "1"; break;
